@@ -19,7 +19,7 @@ def run(chk, tier):
             for i in range(10 if quick else 300):
                 k = r.bytes(e["ks"])
                 d = "encs" if "e" in e["caps"] else "decs"
-                ops.append(f"{d} {e['name']} inplace 0 {hx(k)} {hx(blocks_for(r, e, 1 + r.below(20)))}")
+                ops.append(f"{d} {e['name']} {conf.SHAPES[i % 3]} {r.below(16)} {hx(k)} {hx(blocks_for(r, e, 1 + r.below(30)))}")
                 chk.case((e["name"], "batch", hx(k), i))
     chk.run_family(["default", "cpuoff", "forcesoft", "compact", "softcompact"], ops)
     conf.require_models(chk, NAMES)
